@@ -187,6 +187,33 @@ func c01Check(ctx *vfCtx, c c01Case) {
 		ctx.Fail("C01/result-overwritten-by-later-call", "CanonicalJSON(%q) returned %q; after canonicalising other texts the same slice reads %q", text, kept, out)
 		return
 	}
+	// the caller's buffer is the caller's: the same backing array, refilled in place with a damaged
+	// copy of the text (a read buffer that is reused), is judged as what it holds now
+	if len(text) >= 2 {
+		buf := append([]byte(nil), text...)
+		var e1, e2 error
+		var o2 []byte
+		broken := append([]byte(nil), text...)
+		switch last := broken[len(broken)-1]; last {
+		case '}', ']', '"':
+			broken[len(broken)-1] = ','
+		default:
+			broken[0] = ']'
+		}
+		if _, _, berr := jparse(broken); berr != nil {
+			if vfCatch(ctx, "C01", func() {
+				_, e1 = CanonicalJSON(buf)
+				copy(buf, broken)
+				o2, e2 = CanonicalJSON(buf)
+			}) {
+				return
+			}
+			if e1 == nil && e2 == nil {
+				ctx.Fail("C01/invalid-accepted/reused-input-buffer", "CanonicalJSON accepted %q (-> %q) handed over in the buffer that held the valid text %q a call earlier", broken, o2, text)
+				return
+			}
+		}
+	}
 	var again []byte
 	if vfCatch(ctx, "C01", func() { again, err = CanonicalJSON(append([]byte(nil), out...)) }) {
 		return
